@@ -14,17 +14,24 @@ CONSTANTS
   RQ = %(rq)d
   MaxFaults = %(faults)d
   UserMayCancel = %(cancel)s
+  Kind = "%(kind)s"
 %(invs)sINVARIANT C12_QueueSlotsConserved
+INVARIANT C05_CleanupRegisteredBeforeRun
+INVARIANT C17_LocksHeldByAnnouncers
 PROPERTY C04_ResultReturns
 PROPERTY C04_ShutdownReturns
 CHECK_DEADLOCK FALSE
 '''
+
+SAFE_CFG = CFG.replace('SPECIFICATION FairSpec', 'SPECIFICATION Spec').replace(
+    'PROPERTY C04_ResultReturns\n', '').replace('PROPERTY C04_ShutdownReturns\n', '')
 
 FOOT = {
     'C01': ('C01_',), 'C03': ('C03_', 'C05_'), 'C04': ('C04_',), 'C05': ('C05_',),
     'C07': ('C07_', 'C05_'), 'C08': ('C08_',), 'C10': ('C10_', 'C12_'),
     'C18': ('C18_',), 'C17': ('C17_',), 'C12': ('C12_',),
 }
+
 
 
 def clauses():
@@ -34,22 +41,33 @@ def clauses():
 
 
 def run(ck, pid, tier, seed):
+    from checks import download_mc
+    download_mc.run(ck, pid, tier, seed)
     if pid not in FOOT:
         return
     cl = clauses()
     mod = '---- MODULE MC_Pipeline ----\nEXTENDS Pipeline\n' + ''.join(
         f'I_{c} == Holds("{c}", o)\n' for c in cl) + '====\n'
     invs = ''.join(f'INVARIANT I_{c}\n' for c in cl)
-    confs = [dict(p=2, r=2, rq=2, faults=1, cancel='TRUE'),
-             dict(p=0, r=1, rq=1, faults=1, cancel='TRUE'),
-             dict(p=2, r=1, rq=1, faults=1, cancel='TRUE')]
+    # live: termination under fairness is checked too (costly on big graphs)
+    confs = [dict(p=2, r=2, rq=2, faults=1, cancel='TRUE', live=False),
+             dict(p=2, r=2, rq=1, faults=1, cancel='FALSE', live=True),
+             dict(p=1, r=2, rq=1, faults=1, cancel='TRUE', live=True),
+             dict(p=0, r=1, rq=1, faults=1, cancel='TRUE', live=True),
+             dict(p=0, r=2, rq=1, faults=1, cancel='TRUE', kind='delete', live=True),
+             dict(p=2, r=1, rq=1, faults=1, cancel='TRUE', live=True)]
     if tier == 'thorough':
-        confs += [dict(p=3, r=2, rq=2, faults=1, cancel='TRUE'),
-                  dict(p=2, r=2, rq=1, faults=2, cancel='TRUE')]
+        confs += [dict(p=3, r=2, rq=2, faults=1, cancel='TRUE', live=False),
+                  dict(p=2, r=2, rq=2, faults=2, cancel='TRUE', live=False),
+                  dict(p=3, r=3, rq=1, faults=1, cancel='FALSE', live=True),
+                  dict(p=2, r=2, rq=2, faults=1, cancel='TRUE', live=True)]
     for c in confs:
-        r = tlc.run_tlc('MC_Pipeline', CFG % dict(c, invs=invs), workers=14,
+        c.setdefault('kind', 'upload')
+        cfg = CFG if c['live'] else SAFE_CFG
+        r = tlc.run_tlc('MC_Pipeline', cfg % dict(c, invs=invs), workers=14,
                         timeout=3000, files={'MC_Pipeline.tla': mod})
-        ck.add_tlc(f'Pipeline P={c["p"]} R={c["r"]} RQ={c["rq"]} faults={c["faults"]}', r)
+        ck.add_tlc(f'Pipeline {c["kind"]} P={c["p"]} R={c["r"]} RQ={c["rq"]} faults={c["faults"]} '
+                   f'cancel={c["cancel"]} {"safety+liveness" if c["live"] else "safety"}', r)
         for v in r.violated:
             name = v[2:] if v.startswith('I_') else v
             mine = name.startswith(FOOT[pid])
